@@ -94,7 +94,7 @@ def discipline(ctx, clause):
         counts[kind] = counts.get(kind, 0) + 1
         layered = f.module.name.startswith(EVIDENCE_PACKAGES)
         ok = kind != "BAD" and layered
-        key = "R-COUNT|%s|%s" % (f.short, norm(n)[:70])
+        key = "R-COUNT|%s|%s" % (f.short, f.key(n)[:70])
         msg = detail if ok else (detail if kind == "BAD" else "evidence table written outside the instances/profiling packages (in %s)" % f.module.name)
         obs.append(Ob(clause, "R-COUNT", key, f.loc(n), ok, msg, note=not ctx.reachable(f) and not ok))
     return obs, counts, writes
@@ -132,7 +132,7 @@ def accumulation_loops_total(ctx, clause, writes):
                 continue
             n += 1
             bad = [x for x in body_nodes if isinstance(x, (ast.Break, ast.Continue, ast.Return))]
-            key = "R-LOOP|accumulation|%s|%s" % (f.short, norm(lp.iter if isinstance(lp, ast.For) else lp.test)[:50])
+            key = "R-LOOP|accumulation|%s|%s" % (f.short, f.key(lp.iter if isinstance(lp, ast.For) else lp.test)[:50])
             obs.append(Ob(clause, "R-LOOP", key, f.loc(lp), not bad,
                           "accumulation loop over `%s` is total" % norm(lp.iter if isinstance(lp, ast.For) else lp.test)[:50] if not bad else
                           "accumulation loop over `%s` in %s contains %s at %s: some triples / instances / classes are not counted" % (
